@@ -858,6 +858,11 @@ where
     /// Gets the root hash at the current epoch.
     #[cfg_attr(feature = "tracing_instrument", tracing::instrument(skip_all))]
     pub async fn get_epoch_hash(&self) -> Result<EpochHash, AkdError> {
+        // The guard will be dropped once the root hash has been read. Like every other cached
+        // read, this must not overlap with the cache flush of poll_for_azks_changes: a root node
+        // fetched before the flush would otherwise be put into the fresh cache after it
+        let _guard = self.cache_lock.read().await;
+
         let current_azks = self.retrieve_azks().await?;
         let latest_epoch = current_azks.get_latest_epoch();
         let root_hash = current_azks.get_root_hash::<TC, _>(&self.storage).await?;
